@@ -472,7 +472,7 @@ fn size_class(n: usize) -> &'static str {
 }
 
 /// Engine-facing oracle: accounting + `check_case`. The sub-check name is the driver's.
-fn check_as(ctx: &mut Ctx, sub: &str, c: &Case) -> R {
+pub fn check_as(ctx: &mut Ctx, sub: &str, c: &Case) -> R {
     let k = kind(c);
     let h = Hx::new().fs(&c.x).fs(&c.y).fs(&c.t).u(c.mode as u64).f(c.fill_l).f(c.fill_r).u(c.checked as u64).finish();
     let var = if c.checked { "checked" } else { "unchecked" };
@@ -980,6 +980,13 @@ mismatch cases: at least 3 knots); distinct by hash of (x, y, targets, mode, fil
     let n_bad = ctx.scale(16_000, 200_000);
     ctx.run_prop_par("unsorted", n_bad, th, || strat_unsorted(maxn), ck_unsorted);
     ctx.run_prop_par("mismatch", n_bad, th, || strat_mismatch(maxn), ck_mismatch);
+    // coverage-guided campaign (libFuzzer, ASan) over the same decoder and oracle: thorough tier only
+    if !ctx.quick() {
+        crate::engine::fuzzdrv::run(
+            ctx,
+            crate::engine::fuzzdrv::Campaign { target: "c16", runs_per_job: 1000000, jobs: 8, max_len: 200, seeds: vec![vec![3, 2, 0, 0, 0, 0, 2, 2, 2, 9, 3, 0, 5, 7, 11, 1, 0, 1], (0u8..100).collect::<Vec<u8>>(), vec![10, 4, 3, 1, 2, 3, 4, 5, 6, 7, 0, 0, 0, 0, 15, 6, 5, 5, 6, 9, 10, 2, 4, 0]] },
+        );
+    }
 }
 
 pub fn replay(ctx: &mut Ctx, sub: &str, v: Value) -> Option<R> {
